@@ -283,7 +283,7 @@ func work(ctx *runner.Ctx) {
 			}
 		}
 	}
-	small := []int{1, 8, 9, 64, 130}
+	small := []int{1, 2, 7, 8, 9, 63, 64, 65, 128, 130}
 	if ctx.Quick() {
 		small = []int{1, 9, 64}
 	}
@@ -358,7 +358,7 @@ func work(ctx *runner.Ctx) {
 		}
 	}
 	// multi-chunk batches: every row of every chunk for 8 columns, and every column for boundary rows
-	big := []int{513, 600, 1030, 2049}
+	big := []int{513, 600, 1024, 1030, 1537, 2049}
 	if ctx.Quick() {
 		big = []int{513, 1030}
 	}
@@ -370,7 +370,14 @@ func work(ctx *runner.Ctx) {
 				if ck == nchunks-1 {
 					rows = (n - ck*512 + 7) / 8 * 8
 				}
-				for _, c := range []int{0, 1, 2, 3, 63, 64, 126, 127} {
+				cols := []int{0, 1, 2, 3, 63, 64, 126, 127}
+				if !ctx.Quick() {
+					cols = nil
+					for c := 0; c < 128; c++ {
+						cols = append(cols, c) // thorough: every (column, row) of every chunk
+					}
+				}
+				for _, c := range cols {
 					for r := 0; r < rows; r++ {
 						if ctx.Quick() && r%3 != 0 && r > 16 && r < rows-16 {
 							continue
@@ -417,7 +424,7 @@ func main() {
 	runner.Main(runner.Spec{
 		ID:    id,
 		Level: "fault_enumeration",
-		Rule: "honest runs for every n in 1..300 (thorough 700) and chunk boundaries up to 2049 never abort; faults: EVERY (column 0..127, row) single-bit flip of the payload matrix and of the 256-row check matrix for small n, every pair of flips within a row and within a column (first 16), whole columns, whole rows, chunk length +-128, every bit of seed2/x/t0/t1; multi-chunk batches (513..2049 rows): every row of every chunk for 8 columns and every column for boundary rows; each under Delta and its complement so every column is selected once. " +
+		Rule: "honest runs for every n in 1..300 (thorough 700) and chunk boundaries up to 2049 never abort; faults: EVERY (column 0..127, row) single-bit flip of the payload matrix and of the 256-row check matrix for small n, every pair of flips within a row and within a column (first 16), whole columns, whole rows, chunk length +-128, every bit of seed2/x/t0/t1; multi-chunk batches (513..2049 rows): every row of every chunk for 8 columns (thorough: all 128 columns) and every column for boundary rows; each under Delta and its complement so every column is selected once. " +
 			"distinct_nontrivial = distinct (fault kind, batch, column selected?, chunk, row block, n) classes plus honest sizes",
 		Assumptions: []string{
 			"base OT = ideal functionality; the receiver's honest message list is recorded once per (n, choices, seed) and the real sender is re-run on each mutated list",
